@@ -220,6 +220,26 @@ func (r *Rig) Metric(name string) float64 {
 	return 0
 }
 
+// HistCount reads the sample count of a histogram of the dispatcher's registry.
+func (r *Rig) HistCount(name string) uint64 {
+	mfs, err := r.Reg.Gather()
+	if err != nil {
+		return 0
+	}
+	var n uint64
+	for _, mf := range mfs {
+		if mf.GetName() != name {
+			continue
+		}
+		for _, m := range mf.GetMetric() {
+			if m.Histogram != nil {
+				n += m.Histogram.GetSampleCount()
+			}
+		}
+	}
+	return n
+}
+
 // GroupView is what Dispatcher.Groups shows for one aggregation group.
 type GroupView struct {
 	Key      string
